@@ -34,6 +34,8 @@ RULE = (
     "changes the number of observations/components; distinct by content hash of the history"
 )
 PARTIAL = [
+    "a functional-data object shares the argvals / values objects it was constructed from (recorded in the `ctorargs` cases, not "
+    "judged); the typed-dictionary API sweep (`api` cases) and the constructor-argument cases are oracle-only (no Lean model)",
     "inherited UserList operations outside the property's list are modelled as they behave (`stepX`): `del`, `+`, `*`, `*=`, "
     "`sort` preserve the invariant (`xop_preserves`), `mfd[i] = c` and `mfd += […]` do not (`xop_*_counterexample`, documented, "
     "not judged); `copy()` is not modelled (it returns an object whose `data` is the original object)",
@@ -1164,6 +1166,225 @@ def _stand_label_cases():
         yield dict(kind="seq", start="standlabels", ops=[st, ["ga", "2,0,1"], ["setS"] + a_irreg([(l, p, 0) for l, p in zip(labs, ([4], [3], [2]))])])
 
 
+# --------------------------------------------------------------------------
+# the whole mutating API of the typed dictionaries (by reflection) and constructor arguments that stay alive
+# --------------------------------------------------------------------------
+
+def _typed_ok(d):
+    """The typed-dictionary invariant, item by item (None when it holds)."""
+    A, V, FD = cu._fd()
+    for k, v in dict.items(d.data):
+        if isinstance(d, A.DenseArgvals):
+            if not isinstance(k, str) or not isinstance(v, np.ndarray):
+                return f"{type(d).__name__} holds {type(k).__name__} -> {type(v).__name__}"
+        elif isinstance(d, A.IrregularArgvals):
+            if not isinstance(k, int) or not isinstance(v, A.DenseArgvals):
+                return f"{type(d).__name__} holds {type(k).__name__} -> {type(v).__name__}"
+        elif isinstance(d, V.IrregularValues):
+            if not isinstance(k, int) or not isinstance(v, np.ndarray):
+                return f"{type(d).__name__} holds {type(k).__name__} -> {type(v).__name__}"
+    return None
+
+
+def _typed_zoo():
+    A, V, FD = cu._fd()
+    da = lambda m=3: A.DenseArgvals({"input_dim_0": cu.grid(m, 0)})  # noqa: E731
+    return {
+        "DenseArgvals": (lambda: A.DenseArgvals({"input_dim_0": cu.grid(3, 0)}), ("input_dim_0", "input_dim_1"), lambda: cu.grid(4, 1)),
+        "IrregularArgvals": (lambda: A.IrregularArgvals({0: da(3), 1: da(2)}), (0, 5), lambda: da(4)),
+        "IrregularValues": (lambda: V.IrregularValues({0: np.ones(3), 1: np.ones(2)}), (0, 5), lambda: np.ones(4)),
+    }
+
+
+def _rhs_kinds(clsname):
+    """Right-hand sides of every kind: plain dictionaries (good / bad value / bad key), the same typed dictionary, the
+    OTHER typed dictionaries (whose items are of the wrong class here), lists of pairs, non-mappings."""
+    A, V, FD = cu._fd()
+    zoo = _typed_zoo()
+    mk, keys, good = zoo[clsname]
+    out = {
+        "plain-good": lambda: {keys[1]: good()},
+        "plain-bad-value": lambda: {keys[1]: [1.0, 2.0]},
+        "plain-bad-key": lambda: {(1.5 if clsname != "DenseArgvals" else 7): good()},
+        "plain-none": lambda: {keys[0]: None},
+        "same-typed": lambda: type(mk())({keys[1]: good()}),
+        "pairs-bad": lambda: [(keys[1], "x")],
+    }
+    for other in zoo:
+        if other != clsname:
+            out["typed:" + other] = zoo[other][0]
+    return out
+
+
+def _api_cases():
+    """In every run: every callable the typed dictionaries inherit from `UserDict` / `MutableMapping`, found by
+    reflection, called with right-hand sides of every kind; plus `|=` / `update` through the attribute of an object."""
+    import collections
+    import collections.abc
+
+    for clsname in ("DenseArgvals", "IrregularArgvals", "IrregularValues"):
+        names = sorted(n for n in set(dir(collections.UserDict)) | set(dir(collections.abc.MutableMapping))
+                       if callable(getattr(collections.UserDict, n, None)) and n not in (
+                           "__class__", "__init_subclass__", "__subclasshook__", "__new__", "__getattribute__", "__setattr__", "__delattr__",
+                           "__dir__", "__reduce__", "__reduce_ex__", "__sizeof__", "__format__", "__class_getitem__", "__getstate__"))
+        for n in names:
+            yield dict(kind="api", start="api", cls=clsname, method=n)
+    for objkind in ("dense", "irreg"):
+        for attr in ("argvals", "values", "argvals_stand"):
+            yield dict(kind="api", start="api", cls="object:" + objkind, method=attr)
+
+
+def _api_run(case):
+    A, V, FD = cu._fd()
+    cu.quiet()
+    problems, calls, accepted = [], 0, 0
+    if case["cls"].startswith("object:"):
+        # `obj.<attr> |= rhs`, `obj.<attr>.update(rhs)`, `obj.<attr>[k] = v` with wrongly typed right-hand sides
+        start = START["dense"] if case["cls"].endswith("dense") else START["irreg"]
+        attr = case["method"]
+        for rname in ("typed:DenseArgvals", "typed:IrregularArgvals", "typed:IrregularValues", "plain-bad-value", "plain-none"):
+            for how in ("ior", "update", "attr-ior"):
+                obj, _ = run_history([start])
+                target = getattr(obj, attr)
+                if not isinstance(target, (A.Argvals, V.IrregularValues)):
+                    continue
+                own = type(target).__name__
+                rk = _rhs_kinds(own)
+                if rname not in rk or rname == "typed:" + own:
+                    continue
+                rhs = rk[rname]()
+                before = cu.show_state(obj)
+                calls += 1
+                try:
+                    if how == "ior":
+                        target |= rhs
+                    elif how == "update":
+                        target.update(rhs)
+                    else:
+                        exec(f"obj.{attr} |= rhs", {}, dict(obj=obj, rhs=rhs))
+                    accepted += 1
+                except Exception:  # noqa: BLE001
+                    pass
+                bad = _typed_ok(getattr(obj, attr)) if isinstance(getattr(obj, attr), (A.Argvals, V.IrregularValues)) else None
+                if bad:
+                    problems.append(f"obj.{attr} {how} {rname}: {bad}")
+                elif cu.show_state(obj) != before and rname.startswith(("typed:", "plain-bad", "plain-none")):
+                    problems.append(f"obj.{attr} {how} {rname}: the object changed from {before} to {cu.show_state(obj)}")
+        return dict(problems=problems[:6], calls=calls, accepted=accepted)
+    zoo = _typed_zoo()
+    mk, keys, good = zoo[case["cls"]]
+    name = case["method"]
+    for rname, rhs_f in _rhs_kinds(case["cls"]).items():
+        for shape in ("(rhs)", "(key, badvalue)", "(key)", "()", "(**rhs)", "(keys, badvalue)"):
+            d = mk()
+            before = {k: id(v) for k, v in dict.items(d.data)}
+            try:
+                rhs = rhs_f()
+                f = getattr(d, name)
+                calls += 1
+                if shape == "(rhs)":
+                    res = f(rhs)
+                elif shape == "(key, badvalue)":
+                    res = f(keys[1], [1.0, 2.0])
+                elif shape == "(key)":
+                    res = f(keys[0])
+                elif shape == "()":
+                    res = f()
+                elif shape == "(**rhs)":
+                    res = f(**{str(k): v for k, v in dict(rhs).items()}) if isinstance(rhs, (dict, collections.UserDict)) else f()
+                else:
+                    res = f([keys[1]], "x")
+                accepted += 1
+            except Exception:  # noqa: BLE001
+                res = None
+                if {k: id(v) for k, v in dict.items(d.data)} != before and name not in ("pop", "popitem", "clear", "__delitem__", "__init__"):
+                    problems.append(f"{case['cls']}.{name}{shape} with {rname} raised but changed the dictionary")
+            bad = _typed_ok(d)
+            if bad:
+                problems.append(f"{case['cls']}.{name}{shape} with {rname}: {bad}")
+            if isinstance(res, (A.Argvals, V.IrregularValues)):
+                bad = _typed_ok(res)
+                if bad:
+                    problems.append(f"result of {case['cls']}.{name}{shape} with {rname}: {bad}")
+    return dict(problems=sorted(set(problems))[:6], calls=calls, accepted=accepted)
+
+
+def _ctorargs_cases():
+    """In every run: constructor arguments the caller keeps alive — a second object built from the same argument, and the
+    argument mutated afterwards."""
+    for which in ("multi-two-objects", "multi-list-mutated", "multi-tuple", "typed-dict-mutated", "grid-objects-shared"):
+        for flavour in ("dense", "irreg", "mixed"):
+            yield dict(kind="ctorargs", start="ctorargs", which=which, flavour=flavour)
+
+
+def _ctorargs_run(case):
+    A, V, FD = cu._fd()
+    cu.quiet()
+
+    def comp(kind, n, tag=0):
+        toks = (["D"] + a_dense([3], 1) + v_dense([tag + j for j in range(n)], [3])) if kind == "dense" else \
+               (["I"] + a_irreg([(j, [2 + j % 2], 1) for j in range(n)]) + v_irreg([(j, [2 + j % 2], tag + j) for j in range(n)]))
+        return cu.parse_recipe(Tokens(toks))()
+
+    fl = case["flavour"]
+    kinds = {"dense": ("dense", "dense"), "irreg": ("irreg", "irreg"), "mixed": ("dense", "irreg")}[fl]
+    problems, recorded = [], []
+    which = case["which"]
+    if which.startswith("multi"):
+        lst = [comp(kinds[0], 2, 0), comp(kinds[1], 2, 10)]
+        arg = tuple(lst) if which == "multi-tuple" else lst
+        m1 = FD.MultivariateFunctionalData(arg)
+        snap1 = cu.show_state(m1)
+        if which == "multi-two-objects":
+            m2 = FD.MultivariateFunctionalData(arg)
+            snap2 = cu.show_state(m2)
+            for label, f in (("append", lambda: m1.append(comp(kinds[0], 2, 20))), ("pop", lambda: m1.pop(0)), ("reverse", lambda: m1.reverse()),
+                             ("insert", lambda: m1.insert(0, comp(kinds[1], 2, 30))), ("clear", lambda: m1.clear())):
+                f()
+                if cu.show_state(m2) != snap2:
+                    problems.append(f"two objects built from one list: {label} on the first changed the second to {cu.show_state(m2)}")
+                    snap2 = cu.show_state(m2)
+                if len(lst) != 2:
+                    problems.append(f"{label} on the object changed the caller's list (now {len(lst)} items)")
+                    break
+        else:
+            edits = [("append a component with another n_obs", lambda: lst.append(comp(kinds[0], 3, 40))),
+                     ("replace an entry", lambda: lst.__setitem__(0, comp(kinds[1], 5, 50))), ("clear", lambda: lst.clear())]
+            for label, f in edits:
+                f()
+                now = cu.show_state(m1)
+                if now != snap1 or check_obj(m1, None):
+                    problems.append(f"the caller's list was edited after construction ({label}): the object now reads {now} ({check_obj(m1, None)})")
+                    break
+    elif which == "typed-dict-mutated":
+        srcs = {"dense": (A.DenseArgvals, {"input_dim_0": cu.grid(3, 0)}, ("input_dim_0", cu.grid(5, 1), "x", [1.0])),
+                "irreg": (A.IrregularArgvals, {0: A.DenseArgvals({"input_dim_0": cu.grid(3, 0)})}, (0, A.DenseArgvals({"input_dim_0": cu.grid(5, 0)}), 1, np.ones(2))),
+                "mixed": (V.IrregularValues, {0: np.ones(3)}, (0, np.ones(5), "a", [1.0]))}[fl]
+        cls, src, (k_ok, v_ok, k_bad, v_bad) = srcs
+        d = cls(src)
+        before = {k: id(v) for k, v in dict.items(d.data)}
+        src[k_ok] = v_ok
+        src[k_bad] = v_bad
+        if {k: id(v) for k, v in dict.items(d.data)} != before or _typed_ok(d):
+            problems.append(f"{cls.__name__} built from a dictionary the caller edited afterwards changed: {_typed_ok(d) or 'items replaced'}")
+    else:
+        # FunctionalData from argvals / values OBJECTS: the unchanged tree shares them (recorded); replacing the caller's own
+        # reference must not matter, and a second object built from the same pair is independent under the setters
+        obj, _ = run_history([START["dense"] if fl != "irreg" else START["irreg"]])
+        a, v = obj.argvals, obj.values
+        second = type(obj)(a, v)
+        recorded.append("argvals object shared" if second.argvals is obj.argvals else "argvals copied")
+        snap = cu.show_state(obj)
+        if fl != "irreg":
+            second.values = V.DenseValues(np.ones((7, 3)))
+            second.argvals = A.DenseArgvals({"input_dim_0": cu.grid(3, 4)})
+        else:
+            second.values = V.IrregularValues({l: np.asarray(x) * 2 for l, x in v.items()})
+        if cu.show_state(obj) != snap:
+            problems.append(f"setters on a second object built from the same argvals / values objects changed the first: {cu.show_state(obj)}")
+    return dict(problems=problems[:4], recorded=recorded)
+
+
 def fnv(s: str) -> int:
     h = 14695981039346656037
     for b in s.encode():
@@ -1232,6 +1453,8 @@ def gen_cases(rng: Rng, tier):
     cases += list(_bad_variant_cases())
     cases += list(_stand_label_cases())
     cases += list(_alias_cases())
+    cases += list(_api_cases())
+    cases += list(_ctorargs_cases())
     cases += list(_xop_cases(rng, 120 if tier == "quick" else 1500))
     cases += list(_norm_cases(rng, 150 if tier == "quick" else 2000))
     if tier == "quick":
@@ -1268,11 +1491,17 @@ def run_impl(case):
         return _xop_run(case)
     if case["kind"] == "norm":
         return _norm_run(case)
+    if case["kind"] == "api":
+        return _api_run(case)
+    if case["kind"] == "ctorargs":
+        return _ctorargs_run(case)
     _, steps = run_history(case["ops"])
     return dict(steps=steps)
 
 
 def model_lines(case, impl):
+    if case["kind"] in ("api", "ctorargs"):
+        return []        # judged by the oracle (the typed guard / independence of the constructor arguments)
     if case["kind"] == "norm":
         return ["norm " + ",".join(case["t"])] if case["t"] else []
     if case["kind"] == "xop":
@@ -1472,6 +1701,11 @@ def oracle(case, impl):
         return [dict(clause="runs", entry="history", msg=f"crash {impl['__crash__']}: {impl.get('msg')} {impl.get('tb', '')[-300:]}")]
     if case["kind"] == "tree":
         return [dict(v) for v in impl["violations"]]
+    if case["kind"] == "api":
+        entry = "typed_dict." + case["method"] if not case["cls"].startswith("object:") else "object." + case["method"]
+        return [dict(clause="reject_type_documented", entry=entry, causes=["typed_guard_bypassed"], msg=p) for p in impl["problems"]]
+    if case["kind"] == "ctorargs":
+        return [dict(clause="result_aliases_operand", entry="constructor:" + case["which"], causes=["constructor_argument_alive"], msg=p) for p in impl["problems"]]
     if case["kind"] == "norm":
         # the property's relation, in plain NumPy: same number of points, same order, (t - min) / (max - min)
         t = np.array([float(common.F(x)) for x in case["t"]])
@@ -1523,6 +1757,8 @@ def nontrivial(case, impl):
         return digest(case) if impl.get("out") not in ("na",) else None
     if case["kind"] == "norm":
         return digest(case) if len(set(case["t"])) > 1 else None
+    if case["kind"] in ("api", "ctorargs"):
+        return digest(case)
     outs = [s["out"] for s in impl["steps"]]
     if "ok" in outs[1:] and any(o not in ("ok", "na") for o in outs):
         return digest(case["ops"])
@@ -1537,6 +1773,10 @@ def classify(case, impl):
         return ["xop:" + case["xop"][0] + ":" + str(impl.get("out"))]
     if case["kind"] == "norm":
         return ["norm:" + case["how"]]
+    if case["kind"] == "api":
+        return [f"api:{case['cls']}", f"api-calls-accepted:{impl.get('accepted', 0) > 0}"]
+    if case["kind"] == "ctorargs":
+        return ["ctorargs:" + case["which"]] + ["ctorargs:" + r for r in impl.get("recorded", [])]
     tags = ["start:" + str(case.get("start")), "len:" + ("1-4" if len(case["ops"]) <= 5 else "5-12" if len(case["ops"]) <= 12 else "13+")]
     if "__crash__" in impl:
         return tags + ["crash"]
